@@ -340,6 +340,10 @@ def _prepare_db(state, workdir):
     return db
 
 
+def _what(built) -> str:
+    return f'[{built.kind}] {built.what}' if built.kind else built.what
+
+
 def _exc(exc) -> str:
     return f'{type(exc).__name__}: {exc}'[:300]
 
@@ -358,7 +362,9 @@ def _check_valid_file(case, f, label, dbstate, workdir, out):
     try:
         loaded = lmf.load(f, progress_handler=None)
     except Exception as exc:  # noqa: BLE001
-        out.append(Disc('valid-file-rejected-by-load', label, 'accepted', _exc(exc)))
+        kind = ('is_lmf-true-but-load-rejects' if label == 'header-variant'
+                else 'valid-file-rejected-by-load')
+        out.append(Disc(kind, label, 'accepted', _exc(exc)))
         return None
     try:
         scan = lmf.scan_lexicons(f)
@@ -417,7 +423,7 @@ def _add_must_reject(dbstate, case, f, built, workdir, out):
     except Exception as exc:  # noqa: BLE001
         raised = exc
     after = dumps.raw_dump(db.file)
-    where = f'{built.cls}:{built.kind}' if built.kind else built.cls
+    where = built.cls
     _note_outcome(case, 'add-raises:' + type(raised).__name__ if raised is not None
                   else 'add-returns')
     if raised is None:
@@ -438,10 +444,10 @@ def _add_must_reject(dbstate, case, f, built, workdir, out):
             kind = ('invalid-file-ignored-by-add:no-lexicon-found' if infos == []
                     else 'invalid-file-accepted-by-add')
             out.append(Disc(kind, where, 'exception', 'returned normally',
-                            note=f'{built.what}; scan_lexicons: {scan!r}'[:400]))
+                            note=f'{_what(built)}; scan_lexicons: {scan!r}'[:400]))
     changes = diff(before, after)
     for p, e, g in changes[:5]:
-        out.append(Disc('invalid-file-changed-database', f'{where}{p}', e, g, note=built.what))
+        out.append(Disc('invalid-file-changed-database', f'{where}{p}', e, g, note=_what(built)))
 
 
 def mutant_oracle(case):
@@ -472,7 +478,7 @@ def _one_mutant(case, k, mut, orig, d, out):
     if built.wellformed is not None and _wellformed(built.data) != built.wellformed:
         raise env.HarnessError(f'mutant well-formedness is not {built.wellformed}: {mut} '
                                f'{built.what}')
-    where = f'{built.cls}:{built.kind}' if built.kind else built.cls
+    where = built.cls
     f = d / f'mutant{k}.xml'
     f.write_bytes(built.data)
     # alternate the database state over the mutants of one document
@@ -484,7 +490,7 @@ def _one_mutant(case, k, mut, orig, d, out):
     except Exception as exc:  # noqa: BLE001
         out.append(Disc('is_lmf-raises', where,
                         {'intact': True, 'fault': False}.get(built.header, 'True or False'),
-                        _exc(exc), note=built.what))
+                        _exc(exc), note=_what(built)))
         is_lmf = None
     _note_outcome(case, f'is_lmf:{is_lmf}')
 
@@ -494,9 +500,9 @@ def _one_mutant(case, k, mut, orig, d, out):
         return
 
     if built.header == 'intact' and is_lmf is False:
-        out.append(Disc('is_lmf-false-with-valid-header', where, True, False, note=built.what))
+        out.append(Disc('is_lmf-false-with-valid-header', where, True, False, note=_what(built)))
     if built.header == 'fault' and is_lmf is True:
-        out.append(Disc('is_lmf-true-with-invalid-header', where, False, True, note=built.what))
+        out.append(Disc('is_lmf-true-with-invalid-header', where, False, True, note=_what(built)))
 
     try:
         got = lmf.load(f, progress_handler=None)
@@ -508,7 +514,7 @@ def _one_mutant(case, k, mut, orig, d, out):
                 else 'invalid-file-accepted-by-load')
         out.append(Disc(kind, where, 'exception',
                         [f"{lx.get('id')}:{lx.get('version')}" for lx in got['lexicons']],
-                        note=built.what))
+                        note=_what(built)))
 
     _add_must_reject(dbstate, case, f, built, d, out)
 
